@@ -79,7 +79,7 @@ def run(ctx):
     import concurrent.futures as cf
     # ---------------- (a) same program, five encodings
     progs = []
-    for i in range(8 if ctx.quick() else 80):
+    for i in range(8 if ctx.quick() else 300):
         decls, ns = units.gen_valid(rng, size=1)
         kind = 'valid'
         if i % 2:
@@ -130,7 +130,7 @@ def run(ctx):
         for cname, (pre, post) in ctxs.items():
             jobs.append(('byte', b, cname, 'tokenize', pre + bytes([b]) + post))
     # ---------------- (c) random binary files
-    for i in range(60 if ctx.quick() else 1500):
+    for i in range(60 if ctx.quick() else 6000):
         n = rng.choice([1, 2, 3, 5, 8, 20, 60, 200])
         data = bytes(rng.getrandbits(8) for _ in range(n))
         if rng.random() < 0.3: data = rng.choice([b'\xff\xfe', b'\xfe\xff', b'\xef\xbb\xbf']) + data
